@@ -54,6 +54,8 @@ var c14Features = []string{
 	"x = nil ?? 5\ny = (zz_undefined ?? 6)\nz = true ? 1 : 2\nrd(\"x\", [x, y, z])",
 	"a = \"abc\"\nrd(\"s\", a[1:])\nrd(\"c\", a[0])\nb = [1, 2, 3, 4]\nrd(\"b\", b[1:3])\nrd(\"in\", 2 in b)\nrd(\"len\", len(b))",
 	"p1 = new(int64)\n*p1 = 5\nrd(\"p\", *p1)\nx = 1\nq = &x\nrd(\"q\", *q)",
+	"a = nil\np1 = &a\n*p1 = 5\nb = nil\nrd(\"nil\", [a, b, nil])\nq = &nil\n*q = 6\nrd(\"nil2\", [nil, vnone ?? nil])",
+	"l = [1, 2, 3]\nl[0], l[2] = l[2], l[0]\nrd(\"l\", l)\nt = []string{\"ab\", \"cd\"}\nfor v in t { v[0] = \"Q\" }\nrd(\"t\", toStringSlice([t[0], t[1]]))",
 	"p1 = &(2 + 3)\n*p1 = *p1 + 1\nrd(\"p\", *p1)\nrd(\"five\", 2 + 3)\nn = &len([1, 2, 3])\n*n = 1000\nrd(\"len\", len([7, 8, 9]))",
 	"x = 7\nq = &(-x)\n*q = 99\nrd(\"neg\", -x)\nr = &(x * 1)\n*r = 55\nrd(\"x\", [x, x * 1, 6 + 1])\ny = 10\nz = &(y++)\n*z = 0\nrd(\"y\", [y, 10 + 1])",
 	"func fib(n) { if n < 2 { return n }\n return fib(n - 1) + fib(n - 2) }\nrd(\"fib\", fib(12))",
@@ -163,6 +165,9 @@ func c14Canary(c *wk.Case, when string) {
 			c.Violation("canary:small-int-cache", fmt.Sprintf("after %s: %d + 0 yields %s", when, i, ank.Render(o.Val)), when)
 			break
 		}
+	}
+	if o := ank.Exec(e, "zn = nil; [zn, nil, true, false]"); ank.Render(o.Val) != "[]interface {}[nil nil true false]" || env.NilValue.Interface() != nil {
+		c.Violation("canary:nil-true-false", "after "+when+": `zn = nil; [zn, nil, true, false]` yields "+ank.Render(o.Val), when)
 	}
 	n := 0
 	for _, m := range env.Packages {
